@@ -32,7 +32,20 @@ impl AtRule {
         buf.do_indent_no_nl();
         write!(buf, "@{}", self.name)?;
         if !self.args.is_null() {
-            write!(buf, " {}", self.args.format(buf.format()))?;
+            let args = self.args.format(buf.format()).to_string();
+            if buf.format().is_compressed() && args.contains('\n') {
+                // A line break of the source must not reach compressed
+                // output: join the lines of the prelude with one space.
+                let joined = args
+                    .lines()
+                    .map(str::trim)
+                    .filter(|l| !l.is_empty())
+                    .collect::<Vec<_>>()
+                    .join(" ");
+                write!(buf, " {joined}")?;
+            } else {
+                write!(buf, " {args}")?;
+            }
         }
         if let Some(body) = &self.body {
             if let [AtRuleBodyItem::Comment(c)] = &body[..] {
